@@ -21,6 +21,11 @@ var backends = []backend{
 	{"cvc5", func(f string, ms int) []string {
 		return []string{"cvc5", "--strings-exp", "--produce-models", fmt.Sprintf("--tlimit=%d", ms), f}
 	}},
+	// the same solver with its internal decision heuristic: splits on asserted disjunctions (case
+	// analyses handed over by the generator) that the default justification heuristic sits on
+	{"cvc5-di", func(f string, ms int) []string {
+		return []string{"cvc5", "--strings-exp", "--produce-models", "--decision=internal", fmt.Sprintf("--tlimit=%d", ms), f}
+	}},
 	{"z3-4.8.12", func(f string, ms int) []string { return []string{"z3", fmt.Sprintf("-T:%d", (ms+999)/1000), f} }},
 	{"z3-5.1.0", func(f string, ms int) []string { return []string{"z3-new", fmt.Sprintf("-T:%d", (ms+999)/1000), f} }},
 }
